@@ -146,6 +146,7 @@ struct World : SpawnHandler {
   std::string label;          // "main", "twin", "fork"
   // jobserver bookkeeping
   int tokens_held = 0;
+  int peer_holding = 0;       // tokens currently held by simulated jobserver peers
   std::map<int, int> live;    // pid -> statement of running children
   // deps ninja has been told about: statement -> hidden includes at its last successful completion
   std::map<int, std::vector<std::string>> reported_hidden;
